@@ -208,6 +208,11 @@ class CompositeFrontend(ConstrainedFrontend):
             self._owned_solvers.add(ns)
             self._store_child(ns)
 
+        # a variable that simplification eliminated is covered by none of the parts: it must not keep the unsplit
+        # child alive next to them (children would then share variables and duplicate constraints)
+        for v in [v for v, c in self._solvers.items() if c is s]:
+            del self._solvers[v]
+
         return ss
 
     def _reabsorb_solver(self, s):
@@ -221,7 +226,7 @@ class CompositeFrontend(ConstrainedFrontend):
         if isinstance(s, ModelCacheMixin):
             new_solvers = s.split()
             old_solvers = self._solvers_for_variables(s.variables)
-            if len(new_solvers) == len(old_solvers):
+            if len(new_solvers) == len(old_solvers) and all(len(ss.variables) > 0 for ss in new_solvers):
                 done = set()
                 for ss in new_solvers:
                     if ss in done:
@@ -233,6 +238,9 @@ class CompositeFrontend(ConstrainedFrontend):
                 for ns in new_solvers:
                     self._owned_solvers.add(ns)
                     self._store_child(ns)
+                # the parts replace the old children: a variable none of the parts constrains must not keep one alive
+                for v in [v for v, c in self._solvers.items() if any(c is o for o in old_solvers)]:
+                    del self._solvers[v]
 
     def _store_child(self, ns, extra_names=frozenset(), invalidate_cache=True):
         for v in ns.variables | extra_names:
@@ -327,7 +335,7 @@ class CompositeFrontend(ConstrainedFrontend):
                 # skip solvers covered by extra constraints (they were checked above)
                 continue
 
-            if len(s.variables) == 0 or self._solvers[min(iter(s.variables))] is not s:
+            if len(s.variables) == 0 or self._solvers.get(min(iter(s.variables))) is not s:
                 # this happens when a parent solver didn't check all unchecked solvers, and we have stale
                 # child solvers in the unchecked list
                 continue
